@@ -19,7 +19,7 @@ RULE = ("triangulated disks from the zoo (Delaunay disks with non-negative cotan
         "collinear runs); uniform or cotangent weights; per-vertex or per-corner storage; plus non-disk surfaces that must be rejected; non-trivial = >= 5 "
         "interior vertices and (border length not a multiple of 4 or a chord present); distinct = (mesh, mode, weights, storage) hash")
 REQUIRED = {"border": 150, "harmonic": 120, "orientation": 100, "storage": 60, "reject": 20}
-CASE_TIMEOUT = {"quick": 60.0, "thorough": 600.0}
+CASE_TIMEOUT = {"quick": 30.0, "thorough": 600.0}
 ASSUMPTIONS = ["orientation is judged for uniform weights always and for cotangent weights only when every interior edge weight is >= 1e-9",
                "on targets with straight sides (square, custom polygons with collinear runs) orientation is judged only when no triangle and no interior edge has "
                "all its vertices on one straight side (such configurations legitimately flatten)",
